@@ -4,6 +4,7 @@ import NA.Proofs.F2Acl
 import NA.Proofs.F2Unordered
 import NA.Proofs.F1Names
 import NA.Proofs.F2Final
+import NA.Proofs.F2Equiv
 /-!
 # F2 — the IOS diff engine on fragment F2 (C02, C07, C08, C10, C14)
 
@@ -57,20 +58,24 @@ example : inModes none (renderP none (expand (.bind "e0" "x" "in") ++ expand (.t
 
 /-! ## 3. One ACL object (C02) -/
 
-/-- `ios_acl_object_converges` (incremental branch `diffIOSACLs`): for a pair that satisfies the
+/-- `ios_acl_object_converges_partial` (incremental branch `diffIOSACLs`): for a pair that satisfies the
 decidable hypotheses `incrOK` (valid script keeping a line, runs < 10000, lines pairwise different
 modulo `log` per side, NO REMARK LINES), on every device that holds the ACL `aN` with the lines
 `al`: resequence, mode line, numbered adds / moves / deletes and the final resequence are all
 accepted; the ACL ends block-equivalent modulo `log` to the target (`BlockEqG LineEqv` on the
-encoded lines: swaps of neighbours with equal action, replacement by a line equal modulo `log`);
+encoded lines: swaps of neighbours with equal action, replacement by a line equal modulo `log`;
+table-free: `BlockEquivA` — same sequence of actions and block by block the same lines modulo `log`
+up to order, remark lines ignored);
 every other ACL, the interfaces and the routes are unchanged (`putAcl`).  Reduction to
 `NA.Acl.IosAclProps.ios_plan_block_equiv_partial`. -/
-theorem ios_acl_object_converges (aN : Name) (al bl : List ALine) (rs : List Range)
+theorem ios_acl_object_converges_partial (aN : Name) (al bl : List ALine) (rs : List Range)
     (hok : incrOK al bl rs = true) (d : Dev) (hhas : hasAcl d aN = true) (hmode : d.mode = none)
     (hnd : (aclNames d).Nodup) (hlines : (entriesOf d aN).map (·.2) = al) :
     ∃ esF, evsRun d (expand (.edit aN al bl rs)) = some (putAcl d aN esF) ∧
-      BlockEqG LineEqv ((esF.map (·.2)).map (encP al bl)) (bl.map (encP al bl)) :=
-  edit_incremental aN al bl rs hok d hhas hmode hnd hlines
+      BlockEqG LineEqv ((esF.map (·.2)).map (encP al bl)) (bl.map (encP al bl)) ∧
+      BlockEquivA (esF.map (·.2)) bl := by
+  obtain ⟨esF, h1, h2⟩ := edit_incremental aN al bl rs hok d hhas hmode hnd hlines
+  exact ⟨esF, h1, h2, (show AclEqv (esF.map (·.2)) bl from ⟨al, h2⟩).blockEquivA⟩
 
 /-- `ios_acl_object_replaced` (branch "no parts equal" of `diffCmds`, and a device ACL without
 entries): all entries are deleted top-down by text, the target's are appended; accepted whenever
@@ -98,7 +103,8 @@ theorem ios_unordered_ranges (as bs : List String) (hnd : as.Nodup) :
 
 /-! ## 5. End to end -/
 
-/-- **`ios_F2_converges`** (END TO END, all of fragment F2).  For every pair of configurations and
+/-- **`ios_F2_converges_partial`** (END TO END, all of fragment F2; the unrestricted statement
+`ios_F2_converges` is false: `ios_F2_converges_counterexample`).  For every pair of configurations and
 Myers scripts that passes the decidable check `wfB` (names pairwise different, at most one `in`/`out`
 binding per interface and every binding refers to a defined ACL, every ACL pair passes `pairOK` —
 valid script, lines pairwise different modulo `log`, NO REMARK LINES in incrementally edited pairs —,
@@ -107,22 +113,27 @@ route lines pairwise different) and that `checkIOSInterfaces` accepts:
 * the whole printed script (mode lines and `exit` included) is accepted command by command by the
   strict device started on the device configuration;
 * every binding of a target interface is in place and points to an ACL that exists and is
-  block-equivalent modulo `log` to the target's ACL; a direction the target does not bind is unbound;
+  block-equivalent modulo `log` to the target's ACL (`BlockEquivA`); a direction the target does not
+  bind is unbound;
 * the route set is the device's minus the deleted routes of VRFs for which the target specifies
   routes plus the target's new routes;
 * an interface the target does not name keeps its bindings, and the ACLs it binds exist with
   exactly their original entries (interfaces of unmanaged VRFs and interfaces unknown to Netspoc). -/
-theorem ios_F2_converges (a0 b : Config) (sc : Scripts) (hw : wfB a0 b sc = true) (hok : (engine a0 b sc).ok = true) :
+theorem ios_F2_converges_partial (a0 b : Config) (sc : Scripts) (hw : wfB a0 b sc = true) (hok : (engine a0 b sc).ok = true) :
     ∃ d', (exec (ofConfig a0) (engine a0 b sc).script).map strip = some d' ∧
       (∀ bi ∈ b.intfs, ∀ bd ∈ bi.binds, ∃ n, slotOf d' bi.name bd.dir = some n ∧ hasAcl d' n = true ∧
-          AclEqv (linesOf d' n) (b.lines bd.acl)) ∧
+          BlockEquivA (linesOf d' n) (b.lines bd.acl)) ∧
       (∀ bi ∈ b.intfs, ∀ dir, isDir dir = true → dir ∉ bi.binds.map (·.dir) → slotOf d' bi.name dir = none) ∧
       (∀ t, t ∈ d'.routes ↔ (t ∈ a0.routes.map (·.text) ∧ ¬ DelT (alignVRFs a0 b {}).2.routes b.routes t) ∨
           InsT (alignVRFs a0 b {}).2.routes b.routes t) ∧
       (∀ x, x ∉ b.intfs.map (·.name) → ∀ dir, isDir dir = true → slotOf d' x dir = slotOf (ofConfig a0) x dir) ∧
       (∀ i ∈ a0.intfs, i.name ∉ b.intfs.map (·.name) → ∀ bd ∈ i.binds,
-          hasAcl d' bd.acl = true ∧ entriesOf d' bd.acl = entriesOf (ofConfig a0) bd.acl) :=
-  F2_end_to_end a0 b sc (WF_of_wfB hw) hok
+          hasAcl d' bd.acl = true ∧ entriesOf d' bd.acl = entriesOf (ofConfig a0) bd.acl) := by
+  obtain ⟨d', h, h1, h2, h3, h4, h5⟩ := F2_end_to_end a0 b sc (WF_of_wfB hw) hok
+  refine ⟨d', h, ?_, h2, h3, h4, h5⟩
+  intro bi hbi bd hbd
+  obtain ⟨n, k1, k2, k3⟩ := h1 bi hbi bd hbd
+  exact ⟨n, k1, k2, k3.blockEquivA⟩
 
 /-- `ios_script_accepted` (C08 for F2: `ios_objects_before_use`, `ios_no_referenced_acl_deleted`): under
 `wfB` the strict device — which refuses `ip access-group` of an ACL that does not exist at that
@@ -130,10 +141,74 @@ moment, `no ip access-list extended` of a missing or still bound ACL, a used seq
 duplicate entry, a sub-command outside its mode — accepts every command of the script. -/
 theorem ios_script_accepted (a0 b : Config) (sc : Scripts) (hw : wfB a0 b sc = true) (hok : (engine a0 b sc).ok = true) :
     (exec (ofConfig a0) (engine a0 b sc).script).isSome = true := by
-  obtain ⟨d', h, _⟩ := ios_F2_converges a0 b sc hw hok
+  obtain ⟨d', h, _⟩ := ios_F2_converges_partial a0 b sc hw hok
   cases hx : exec (ofConfig a0) (engine a0 b sc).script with
   | none => rw [hx] at h; cases h
   | some _ => rfl
+
+/-- The rules of the strict device that C08 is about. -/
+theorem device_rules (d d' : Dev) :
+    (∀ a dir, exec1 d (.bind a dir) = .ok d' → hasAcl d a = true) ∧
+    (∀ n, exec1 d (.noAcl n) = .ok d' → hasAcl d n = true ∧ aclBound d n = false) := by
+  constructor
+  · intro a dir h
+    simp only [exec1, isEntryCmd, isBindCmd] at h
+    cases hm : d.mode with
+    | none => rw [hm] at h; simp at h
+    | some m =>
+      rw [hm] at h
+      cases m with
+      | acl n => simp at h
+      | intf i =>
+        simp only [Bool.false_eq_true, ↓reduceIte] at h
+        by_cases hh : hasAcl d a = true
+        · exact hh
+        · simp [hh] at h
+  · intro n h
+    simp only [exec1, isEntryCmd, isBindCmd, Bool.false_eq_true, ↓reduceIte, execTop] at h
+    by_cases h1 : hasAcl d n = true
+    · by_cases h2 : aclBound d n = true
+      · simp [h1, h2] at h
+      · exact ⟨h1, by simpa using h2⟩
+    · simp [h1] at h
+
+theorem exec_split (d d' : Dev) (cs1 : List Chg) (c : Chg) (cs2 : List Chg) (h : exec d (cs1 ++ c :: cs2) = some d') :
+    ∃ d1 d2, exec d cs1 = some d1 ∧ exec1 d1 c = .ok d2 := by
+  rw [exec_append] at h
+  cases h1 : exec d cs1 with
+  | none => rw [h1] at h; cases h
+  | some d1 =>
+    rw [h1, Option.bind_some, exec_cons] at h
+    cases h2 : exec1 d1 c with
+    | error e => rw [h2] at h; cases h
+    | ok d2 => exact ⟨d1, d2, rfl, h2⟩
+
+/-- `ios_objects_before_use` (C08): under `wfB`, at the moment an `ip access-group ACL in|out` of the
+script is executed (after any prefix of the script), `ACL` exists on the device. -/
+theorem ios_objects_before_use (a0 b : Config) (sc : Scripts) (hw : wfB a0 b sc = true) (hok : (engine a0 b sc).ok = true)
+    (cs1 cs2 : List Chg) (acl : Name) (dir : String) (hs : (engine a0 b sc).script = cs1 ++ .bind acl dir :: cs2) :
+    ∃ d1, exec (ofConfig a0) cs1 = some d1 ∧ hasAcl d1 acl = true := by
+  have hacc := ios_script_accepted a0 b sc hw hok
+  cases hx : exec (ofConfig a0) (engine a0 b sc).script with
+  | none => rw [hx] at hacc; cases hacc
+  | some d' =>
+    rw [hs] at hx
+    obtain ⟨d1, d2, h1, h2⟩ := exec_split _ _ _ _ _ hx
+    exact ⟨d1, h1, (device_rules d1 d2).1 acl dir h2⟩
+
+/-- `ios_no_referenced_acl_deleted` (C08): under `wfB`, at the moment a `no ip access-list extended N`
+of the script is executed, `N` exists and no interface binds it (the last binding is gone). -/
+theorem ios_no_referenced_acl_deleted (a0 b : Config) (sc : Scripts) (hw : wfB a0 b sc = true)
+    (hok : (engine a0 b sc).ok = true)
+    (cs1 cs2 : List Chg) (n : Name) (hs : (engine a0 b sc).script = cs1 ++ .noAcl n :: cs2) :
+    ∃ d1, exec (ofConfig a0) cs1 = some d1 ∧ hasAcl d1 n = true ∧ aclBound d1 n = false := by
+  have hacc := ios_script_accepted a0 b sc hw hok
+  cases hx : exec (ofConfig a0) (engine a0 b sc).script with
+  | none => rw [hx] at hacc; cases hacc
+  | some d' =>
+    rw [hs] at hx
+    obtain ⟨d1, d2, h1, h2⟩ := exec_split _ _ _ _ _ hx
+    exact ⟨d1, h1, (device_rules d1 d2).2 n h2⟩
 
 /-- `ios_bindings_converge`: after the script every target interface has exactly the target's in/out
 bindings, pointing to ACLs equivalent to the target's. -/
@@ -141,9 +216,9 @@ theorem ios_bindings_converge (a0 b : Config) (sc : Scripts) (hw : wfB a0 b sc =
     ∃ d', (exec (ofConfig a0) (engine a0 b sc).script).map strip = some d' ∧
       ∀ bi ∈ b.intfs, ∀ dir, isDir dir = true →
         match bi.binds.find? (·.dir == dir) with
-        | some bd => ∃ n, slotOf d' bi.name dir = some n ∧ hasAcl d' n = true ∧ AclEqv (linesOf d' n) (b.lines bd.acl)
+        | some bd => ∃ n, slotOf d' bi.name dir = some n ∧ hasAcl d' n = true ∧ BlockEquivA (linesOf d' n) (b.lines bd.acl)
         | none => slotOf d' bi.name dir = none := by
-  obtain ⟨d', h, h1, h2, _⟩ := ios_F2_converges a0 b sc hw hok
+  obtain ⟨d', h, h1, h2, _⟩ := ios_F2_converges_partial a0 b sc hw hok
   refine ⟨d', h, ?_⟩
   intro bi hbi dir hdir
   cases hf : bi.binds.find? (·.dir == dir) with
@@ -166,7 +241,7 @@ theorem ios_routes_converge (a0 b : Config) (sc : Scripts) (hw : wfB a0 b sc = t
       (∀ r ∈ a0.routes ++ b.routes, r.vrf ∈ b.routes.map (·.vrf) →
         (r.text ∈ d'.routes ↔ r.text ∈ b.routes.map (·.text))) ∧
       (∀ t ∈ d'.routes, t ∈ a0.routes.map (·.text) ∨ t ∈ b.routes.map (·.text)) := by
-  obtain ⟨d', h, _, _, hr, _⟩ := ios_F2_converges a0 b sc hw hok
+  obtain ⟨d', h, _, _, hr, _⟩ := ios_F2_converges_partial a0 b sc hw hok
   have hwf := WF_of_wfB hw
   refine ⟨d', h, ?_, ?_⟩
   · intro r hr0 hv
@@ -230,7 +305,7 @@ theorem ios_routes_untouched_if_unspecified (a0 b : Config) (sc : Scripts) (hw :
     (hok : (engine a0 b sc).ok = true) :
     ∃ d', (exec (ofConfig a0) (engine a0 b sc).script).map strip = some d' ∧
       ∀ r ∈ a0.routes, r.vrf ∉ b.routes.map (·.vrf) → r.text ∈ d'.routes := by
-  obtain ⟨d', h, _, _, hr, _⟩ := ios_F2_converges a0 b sc hw hok
+  obtain ⟨d', h, _, _, hr, _⟩ := ios_F2_converges_partial a0 b sc hw hok
   have hwf := WF_of_wfB hw
   refine ⟨d', h, ?_⟩
   intro r hr0 hv
@@ -269,7 +344,7 @@ theorem ios_unmanaged_vrf_untouched (a0 b : Config) (sc : Scripts) (hw : wfB a0 
       (∀ x, x ∉ b.intfs.map (·.name) → ∀ dir, isDir dir = true → slotOf d' x dir = slotOf (ofConfig a0) x dir) ∧
       (∀ i ∈ a0.intfs, i.name ∉ b.intfs.map (·.name) → ∀ bd ∈ i.binds,
           hasAcl d' bd.acl = true ∧ entriesOf d' bd.acl = entriesOf (ofConfig a0) bd.acl) := by
-  obtain ⟨d', h, _, _, _, h4, h5⟩ := ios_F2_converges a0 b sc hw hok
+  obtain ⟨d', h, _, _, _, h4, h5⟩ := ios_F2_converges_partial a0 b sc hw hok
   exact ⟨d', h, h4, h5⟩
 
 /-- `alignVRFs` itself: it only removes interfaces and routes (of VRFs the target does not mention)
@@ -285,25 +360,23 @@ theorem alignVRFs_frame (a b : Config) :
 
 /-! ## 6. What is false: remark lines (F-C02r at configuration level) -/
 
-namespace W
-open NA.Acl (Act)
-def mkL (t : String) (a : Act) : ALine := ⟨t, t, t, a⟩
-def dA := mkL "deny ip 10.1.0.0 0.0.255.255 any" .deny
-def rN := mkL "remark n1" .remark
-def pA := mkL "permit ip 10.1.0.0 0.0.255.255 any" .permit
-def pT := mkL "permit tcp 10.1.0.0 0.0.255.255 any" .permit
-def dAny := mkL "deny ip any any" .deny
-def e0 (acl : String) : Intf := { name := "Ethernet0", addr := "x", binds := [⟨acl, "in"⟩] }
-def devR : Config := { intfs := [e0 "e0_in"], acls := [("e0_in", [dA, rN, pA, pT, dAny])] }
-def tgtR : Config := { intfs := [e0 "e0_in"], acls := [("e0_in", [pT, rN, dA, pA])] }
+open NA.Acl (Act) in
+def W.mkL (t : String) (a : Act) : ALine := ⟨t, t, t, a⟩
+def W.dA := W.mkL "deny ip 10.1.0.0 0.0.255.255 any" .deny
+def W.rN := W.mkL "remark n1" .remark
+def W.pA := W.mkL "permit ip 10.1.0.0 0.0.255.255 any" .permit
+def W.pT := W.mkL "permit tcp 10.1.0.0 0.0.255.255 any" .permit
+def W.dAny := W.mkL "deny ip any any" .deny
+def W.e0 (acl : String) : Intf := { name := "Ethernet0", addr := "x", binds := [⟨acl, "in"⟩] }
+def W.devR : Config := { intfs := [W.e0 "e0_in"], acls := [("e0_in", [W.dA, W.rN, W.pA, W.pT, W.dAny])] }
+def W.tgtR : Config := { intfs := [W.e0 "e0_in"], acls := [("e0_in", [W.pT, W.rN, W.dA, W.pA])] }
 /-- the ranges `myers.Diff` returns for these lists (validated by the driver on the corpus case) -/
-def scR : Scripts := { acl := [(("e0_in", "e0_in"), [⟨0,1,0,0⟩, ⟨1,1,0,1⟩, ⟨1,2,1,2⟩, ⟨2,2,2,3⟩, ⟨2,3,3,4⟩, ⟨3,5,4,4⟩])] }
-def scR2 : Scripts := { acl := [(("e0_in", "e0_in"), [⟨0,1,0,0⟩, ⟨1,3,0,2⟩, ⟨3,3,2,3⟩, ⟨3,4,3,4⟩])] }
+def W.scR : Scripts := { acl := [(("e0_in", "e0_in"), [⟨0,1,0,0⟩, ⟨1,1,0,1⟩, ⟨1,2,1,2⟩, ⟨2,2,2,3⟩, ⟨2,3,3,4⟩, ⟨3,5,4,4⟩])] }
+def W.scR2 : Scripts := { acl := [(("e0_in", "e0_in"), [⟨0,1,0,0⟩, ⟨1,3,0,2⟩, ⟨3,3,2,3⟩, ⟨3,4,3,4⟩])] }
 /-- without the remark line the same pair satisfies `wfB` -/
-def devN : Config := { intfs := [e0 "e0_in"], acls := [("e0_in", [dA, pA, pT, dAny])] }
-def tgtN : Config := { intfs := [e0 "e0_in"], acls := [("e0_in", [pT, dA, pA])] }
-def scN : Scripts := { acl := [(("e0_in", "e0_in"), [⟨0,0,0,1⟩, ⟨0,2,1,3⟩, ⟨2,4,3,3⟩])] }
-end W
+def W.devN : Config := { intfs := [W.e0 "e0_in"], acls := [("e0_in", [W.dA, W.pA, W.pT, W.dAny])] }
+def W.tgtN : Config := { intfs := [W.e0 "e0_in"], acls := [("e0_in", [W.pT, W.dA, W.pA])] }
+def W.scN : Scripts := { acl := [(("e0_in", "e0_in"), [⟨0,0,0,1⟩, ⟨0,2,1,3⟩, ⟨2,4,3,3⟩])] }
 
 open W in
 /-- `ios_F2_converges` is false with remark lines (F-C02r): the script is accepted, but the ACL bound to
@@ -337,8 +410,9 @@ example : replaceOK [W.pA] [W.pT, W.dAny] [⟨0,1,0,0⟩, ⟨0,0,0,2⟩] = true 
 
 def obligations : List Lean.Name := [
   ``ios_names_fresh, ``ios_confmode_tracks, ``ios_confmode_tracks_events, ``ios_confmode_exec,
-  ``ios_acl_object_converges, ``ios_acl_object_replaced, ``ios_unordered_ranges,
-  ``ios_F2_converges, ``ios_script_accepted, ``ios_bindings_converge, ``ios_routes_converge,
+  ``ios_acl_object_converges_partial, ``ios_acl_object_replaced, ``ios_unordered_ranges,
+  ``ios_F2_converges_partial, ``ios_script_accepted, ``ios_objects_before_use, ``ios_no_referenced_acl_deleted,
+  ``ios_bindings_converge, ``ios_routes_converge,
   ``ios_routes_untouched_if_unspecified, ``ios_unmanaged_vrf_untouched, ``alignVRFs_frame,
   ``ios_F2_converges_counterexample]
 
